@@ -176,6 +176,14 @@ pub fn exec_more(t: &[&str]) -> R {
                 Ok(format!("half={} verifies={} clone_verifies={}", half, v1 as u8, v2 as u8))
             })
         }
+        // id string and PASERK text of the same key, for the oracle's independent hash
+        "o.id.spec" => {
+            let (b, k, raw) = (be(1)?, kd(2)?, hx(3)?);
+            with_v!(b, V => with_kind!(k, K => {
+                let key = key_of::<V, K>(&raw).map_err(en)?;
+                Ok(format!("id={} text={}", hex(key.id().to_string().as_bytes()), hex(key.expose_key().to_string().as_bytes())))
+            }))
+        }
         // two encodings of the same key (PEM / DER, compressed / uncompressed) give one id
         "o.id.eq" => {
             let (b, k, r1, r2) = (be(1)?, kd(2)?, hx(3)?, hx(4)?);
